@@ -14,7 +14,25 @@
 //   I <int> ; <stateA> <stateB> ; G <int>                                int/bool-valued ops
 //   PREPFAIL ...     the operand reached through arithmetic is not the operand
 //   CRASH <signal>   (forked cases only)
+//   Q ...            sequence mode, see below
 // every complete result line ends with " $" (a process killed by a signal may leave a partial line)
+// Every FastRational result is also observed "deeply": isWellFormed() must hold and the value read through a
+// mixed-representation computation ((x + 2^80) - 2^80, which goes through x's GMP part whenever that part is
+// flagged valid) must be the value of the fields printed; otherwise " !wf" / " !stale(<value>)" is appended.
+// Operands that an operation takes by const reference must still have their value afterwards (" !operandA/B").
+//
+// Sequence mode:  seq <N> <mode:num/den>*N | <step> <step> ...     a register file r0..r(N-1), steps:
+//   addA.i.j subA mulA divA      ri op= rj  (i = j: aliasing)         addC.i.j ... ri op= FastRational(rj)  (a copy)
+//   add.k.i.j sub mul div        rk = ri op rj                        add3.k.i.j ...  addition(rk, ri, rj) etc.
+//   neg.k.i inv.k.i floor.k.i ceil.k.i num.k.i den.k.i                negate.i
+//   copy.k.i (operator=(const&))  cctor.k.i (rk = FastRational(ri))   move.k.i (rk = std::move(ri))   swap.k.i
+//   cmp.i.j eq.i.j lt.i.j sign.i isint.i                              (print I:<v>)
+//   prime.i   t = (ri + 2^80) - 2^80   (fills ri's GMP cache; prints P:<value of t>)
+//   primem.i  t = (ri * K) / K          primec.i  ri.compare(2^80) (prints I)     primeq.i  ri == 2^80+1/3 (prints I)
+// Output:  Q <dump after step 0> ; <dump after step 1> ; ... ; F <final> # <flags>
+//   dump = [I:<v>|P:<n/d>] <W|B>:<num>/<den>:<hash> for every register (fields only, no mutation of the register);
+//   final = P:<n/d> for every register (mixed-representation read); flags = "ok" or a list of
+//   <step>.<reg>:!wf / <step>.<reg>:!stale ...; then " @ " and the states of the operand registers at every step.
 // W/B = wordPartValid() of the result; num/den are the raw fields of the valid part (not
 // re-canonicalised); G = the same operation computed by GMP alone ("undef" outside its domain).
 #include "FastRational.h"
@@ -22,6 +40,7 @@
 #include <iostream>
 #include <sstream>
 #include <string>
+#include <vector>
 #include <sys/wait.h>
 #include <unistd.h>
 using namespace opensmt;
@@ -30,17 +49,44 @@ static int stateOf(FastRational const & x) {
     return (x.wordPartValid() ? 1 : 0) | (x.mpqMemoryAllocated() ? 2 : 0) | (x.mpqPartValid() ? 4 : 0);
 }
 
-static std::string show(FastRational const & x) {
-    std::ostringstream os;
+static const char * HUGE_STR = "1208925819614629174706176"; // 2^80
+static const char * K_STR = "1099511627791";                // 2^40 + 15
+
+// the value of the fields of the valid part, as printed
+static mpq_class fieldsOf(FastRational const & x) {
     if (x.wordPartValid()) {
         auto nd = x.tryGetNumDen();
-        os << "R W " << nd->first << "/" << nd->second;
-    } else {
-        mpq_class q = x.getMpq();
-        os << "R B " << q.get_num() << "/" << q.get_den();
+        return mpq_class(mpz_class((long)nd->first), mpz_class((unsigned long)nd->second));   // not canonicalised
     }
-    os << " " << x.getHashValue();
+    return x.getMpq();
+}
+
+static std::string showFields(FastRational const & x, char sep) {
+    std::ostringstream os;
+    mpq_class q = fieldsOf(x);
+    os << (x.wordPartValid() ? "W" : "B") << sep << q.get_num() << "/" << q.get_den() << sep << x.getHashValue();
     return os.str();
+}
+
+// the value as a mixed-representation computation sees it (reads x's GMP part when it is flagged valid)
+static mpq_class mixedRead(FastRational const & x) {
+    FastRational h(HUGE_STR);
+    FastRational t = (x + h) - h;
+    return t.getMpq();
+}
+
+static std::string deepFlags(FastRational const & x) {
+    std::string f;
+    mpq_class v = fieldsOf(x);
+    if (v.get_den() != 0) v.canonicalize();
+    if (!x.isWellFormed()) f += " !wf";
+    mpq_class m = mixedRead(x);
+    if (m != v) { std::ostringstream os; os << " !stale(" << m.get_num() << "/" << m.get_den() << ")"; f += os.str(); }
+    return f;
+}
+
+static std::string show(FastRational const & x) {
+    return "R " + showFields(x, ' ') + deepFlags(x);
 }
 
 static std::string showq(mpq_class const & q) {
@@ -55,9 +101,6 @@ static mpq_class parseq(std::string const & s) {
     q.canonicalize();
     return q;
 }
-
-static const char * HUGE_STR = "1208925819614629174706176"; // 2^80
-static const char * K_STR = "1099511627791";                // 2^40 + 15
 
 static bool prep(FastRational & x, std::string const & s, char mode) {
     x = FastRational(s.c_str());
@@ -150,8 +193,116 @@ static std::string run(std::string const & line) {
         else { mpz_class z; mpz_divexact(z.get_mpz_t(), ga.get_num_mpz_t(), gb.get_num_mpz_t()); g = showz(z); }
     }
     else return "BAD";
+    // operands taken by const reference still denote their value (whatever happened to their cached parts)
+    static const char * INPLACE[] = {"addA", "subA", "mulA", "divA", "selfadd", "selfsub", "selfmul", "selfdiv", "negate"};
+    bool inplace = false;
+    for (auto n : INPLACE) inplace = inplace || op == n;
+    if (!inplace && (fieldsOf(a) != ga || !deepFlags(a).empty())) res += " !operandA";
+    if (fieldsOf(b) != gb || !deepFlags(b).empty()) res += " !operandB";
     out << res << " ; " << sta << " " << stb << " ; " << g;
     return out.str();
+}
+
+// ------------------------------------------------------------------------------------------------
+// sequence mode
+static std::vector<std::string> splitOn(std::string const & s, char c) {
+    std::vector<std::string> out; std::string cur;
+    for (char ch : s) { if (ch == c) { out.push_back(cur); cur.clear(); } else cur += ch; }
+    out.push_back(cur);
+    return out;
+}
+
+static std::string showv(mpq_class const & q) { std::ostringstream os; os << q.get_num() << "/" << q.get_den(); return os.str(); }
+
+static std::string runSeq(std::string const & line) {
+    std::istringstream is(line);
+    std::string tok;
+    is >> tok;                       // "seq"
+    int N = 0;
+    is >> N;
+    if (N < 1 || N > 8) return "BAD";
+    std::vector<FastRational> r(N);
+    for (int i = 0; i < N; i++) {
+        is >> tok;
+        if (tok.size() < 3 || tok[1] != ':') return "BAD";
+        if (!prep(r[i], tok.substr(2), tok[0])) return "PREPFAIL R " + tok + " got " + show(r[i]);
+    }
+    is >> tok;
+    if (tok != "|") return "BAD";
+    std::ostringstream out, flags, states;
+    out << "Q";
+    int stepNo = 0;
+    FastRational H(HUGE_STR), K(K_STR), H3 = FastRational(HUGE_STR) + FastRational(1, 3);
+    auto st2 = [&](int i, int j) { states << " " << stateOf(r[i]) << stateOf(r[j]); };
+    auto st1 = [&](int i) { states << " " << stateOf(r[i]); };
+    while (is >> tok) {
+        auto p = splitOn(tok, '.');
+        std::string op = p[0];
+        int x = p.size() > 1 ? std::stoi(p[1]) : 0, y = p.size() > 2 ? std::stoi(p[2]) : 0, z = p.size() > 3 ? std::stoi(p[3]) : 0;
+        if (x < 0 || x >= N || y < 0 || y >= N || z < 0 || z >= N) return "BAD";
+        std::string extra;
+        if (op == "addA") { st2(x, y); r[x] += r[y]; }
+        else if (op == "subA") { st2(x, y); r[x] -= r[y]; }
+        else if (op == "mulA") { st2(x, y); r[x] *= r[y]; }
+        else if (op == "divA") { st2(x, y); r[x] /= r[y]; }
+        else if (op == "addC") { st2(x, y); FastRational c(r[y]); r[x] += c; }
+        else if (op == "subC") { st2(x, y); FastRational c(r[y]); r[x] -= c; }
+        else if (op == "mulC") { st2(x, y); FastRational c(r[y]); r[x] *= c; }
+        else if (op == "divC") { st2(x, y); FastRational c(r[y]); r[x] /= c; }
+        else if (op == "add") { st2(y, z); r[x] = r[y] + r[z]; }
+        else if (op == "sub") { st2(y, z); r[x] = r[y] - r[z]; }
+        else if (op == "mul") { st2(y, z); r[x] = r[y] * r[z]; }
+        else if (op == "div") { st2(y, z); r[x] = r[y] / r[z]; }
+        else if (op == "add3") { st2(y, z); addition(r[x], r[y], r[z]); }
+        else if (op == "sub3") { st2(y, z); subtraction(r[x], r[y], r[z]); }
+        else if (op == "mul3") { st2(y, z); multiplication(r[x], r[y], r[z]); }
+        else if (op == "div3") { st2(y, z); division(r[x], r[y], r[z]); }
+        else if (op == "neg") { st1(y); r[x] = -r[y]; }
+        else if (op == "negate") { st1(x); r[x].negate(); }
+        else if (op == "inv") { st1(y); r[x] = r[y].inverse(); }
+        else if (op == "floor") { st1(y); r[x] = r[y].floor(); }
+        else if (op == "ceil") { st1(y); r[x] = r[y].ceil(); }
+        else if (op == "num") { st1(y); r[x] = r[y].get_num(); }
+        else if (op == "den") { st1(y); r[x] = r[y].get_den(); }
+        else if (op == "copy") { st2(x, y); r[x] = r[y]; }
+        else if (op == "cctor") { st1(y); r[x] = FastRational(r[y]); }
+        else if (op == "move") { st2(x, y); r[x] = std::move(r[y]); }
+        else if (op == "swap") { st2(x, y); std::swap(r[x], r[y]); }
+        else if (op == "cmp") { st2(x, y); extra = "I:" + std::to_string(sgn(r[x].compare(r[y]))); }
+        else if (op == "eq") { st2(x, y); extra = "I:" + std::to_string((r[x] == r[y]) ? 1 : 0); }
+        else if (op == "lt") { st2(x, y); extra = "I:" + std::to_string((r[x] < r[y]) ? 1 : 0); }
+        else if (op == "sign") { st1(x); extra = "I:" + std::to_string(r[x].sign()); }
+        else if (op == "isint") { st1(x); extra = "I:" + std::to_string(r[x].isInteger() ? 1 : 0); }
+        else if (op == "prime") { st1(x); extra = "P:" + showv(mixedRead(r[x])); }
+        else if (op == "primem") { st1(x); FastRational t = (r[x] * K) / K; extra = "P:" + showv(t.getMpq()); }
+        else if (op == "primec") { st1(x); extra = "I:" + std::to_string(sgn(r[x].compare(H))); }
+        else if (op == "primeq") { st1(x); extra = "I:" + std::to_string((r[x] == H3) ? 1 : 0); }
+        else return "BAD";
+        if (stepNo) out << " ;";
+        if (!extra.empty()) out << " " << extra;
+        for (int i = 0; i < N; i++) {
+            out << " " << showFields(r[i], ':');
+            if (!r[i].isWellFormed()) flags << " " << stepNo << "." << i << ":!wf";
+        }
+        stepNo++;
+    }
+    out << " ; F";
+    for (int i = 0; i < N; i++) {
+        mpq_class m = mixedRead(r[i]);
+        out << " P:" << showv(m);
+        mpq_class v = fieldsOf(r[i]);
+        if (v.get_den() != 0) v.canonicalize();
+        if (m != v) flags << " F." << i << ":!stale";
+        if (!r[i].isWellFormed()) flags << " F." << i << ":!wf";
+    }
+    std::string f = flags.str();
+    out << " #" << (f.empty() ? " ok" : f) << " @" << states.str();
+    return out.str();
+}
+
+static std::string runAny(std::string const & line) {
+    if (line.compare(0, 4, "seq ") == 0) return runSeq(line);
+    return run(line);
 }
 
 int main() {
@@ -162,7 +313,7 @@ int main() {
             std::cout.flush();
             pid_t pid = fork();
             if (pid == 0) {
-                std::string r = run(line.substr(1));
+                std::string r = runAny(line.substr(1));
                 std::cout << r << " $\n";
                 std::cout.flush();
                 _exit(0);
@@ -173,7 +324,7 @@ int main() {
             else if (!WIFEXITED(st) || WEXITSTATUS(st) != 0) std::cout << "CRASH exit $\n";
             std::cout.flush();
         } else {
-            std::cout << run(line) << " $\n";
+            std::cout << runAny(line) << " $\n";
         }
     }
     std::cout.flush();
